@@ -40,6 +40,15 @@ def gen_cases(tier, seed):
     for l in range(0, maxall + 1):
         for t in itertools.product("LGS", repeat=l):
             cases.append({"kinds": "".join(t), "sseed": rng.randrange(1 << 48), "kind": "allorders"})
+    # sizes aimed at the readers' buffer arithmetic: what follows the first LZ4 magic is a whole number of 4 MB
+    # read units (+-1), and legacy blocks that do not shrink (stored size = compressBound(8 MB) > 8 MB)
+    pads = [(1, 0), (2, 0), (1, -1), (1, 1)] if tier == "quick" else [(k, d) for k in (1, 2, 3) for d in (-1, 0, 1)]
+    for (k, d) in pads:
+        cases.append({"kinds": "LS", "sseed": rng.randrange(1 << 48), "kind": "pad4m", "k": k, "delta": d, "lead": ""})
+    cases.append({"kinds": "GLS", "sseed": rng.randrange(1 << 48), "kind": "pad4m", "k": 1, "delta": 0, "lead": "G"})
+    for extra in ([1000] if tier == "quick" else [0, 1000, (8 << 20) + 5]):
+        cases.append({"kinds": "G", "sseed": rng.randrange(1 << 48), "kind": "legbig", "extra": extra, "tail": ""})
+    cases.append({"kinds": "GGSL", "sseed": rng.randrange(1 << 48), "kind": "legbig", "extra": 777, "tail": "GSL"})
     nrand = {"quick": 30, "search": 150, "thorough": 250}[tier]
     for _ in range(nrand):
         l = rng.choice([3, 3, 4, 5, 6])
@@ -67,7 +76,24 @@ def run_case(st, case):
     ctx = st["ctx"]; rd = st["rd"]
     kinds = case["kinds"]
     res = {"evals": 0, "fails": [], "stats": collections.Counter()}
-    s = iolib.build_stream(rng, kinds, lz4tool=ctx["ST"])
+    if case["kind"] == "pad4m":
+        # [lead frames] LZ4 frame, then one skippable frame sized so that the bytes after the LZ4 magic number
+        # number exactly k * 4 MB + delta
+        lead = iolib.build_stream(rng, case["lead"], lz4tool=ctx["ST"]) if case["lead"] else {"data": b"", "content": b""}
+        base = iolib.build_stream(rng, "L", lz4tool=ctx["ST"])
+        pay = 4 + case["k"] * (4 << 20) + case["delta"] - len(base["data"]) - 8
+        skip = iolib.le32(0x184D2A50 + rng.randrange(16)) + iolib.le32(pay) + rng.randbytes(pay)
+        s = {"data": lead["data"] + base["data"] + skip, "content": lead["content"] + base["content"]}
+    elif case["kind"] == "legbig":
+        raw = rng.randbytes((8 << 20) + case["extra"])
+        rc, out, err = run_cli(ctx["ST"], ["-l", "-c"], stdin_bytes=raw)
+        if rc != 0:
+            return [{"status": "prop_fail", "what": "lz4 -l exits %d on %d incompressible bytes" % (rc, len(raw)), "kind": case["kind"],
+                     "nontrivial": True, "detail": {"stderr": err[-300:], "sseed": case["sseed"], "extra": case["extra"]}}]
+        tail = iolib.build_stream(rng, case["tail"], lz4tool=ctx["ST"]) if case["tail"] else {"data": b"", "content": b""}
+        s = {"data": out + tail["data"], "content": raw + tail["content"]}
+    else:
+        s = iolib.build_stream(rng, kinds, lz4tool=ctx["ST"])
     data, content = s["data"], s["content"]
     other = iolib.build_stream(rng, rng.choice(["L", "G", "SL", "LL"]), lz4tool=ctx["ST"])
     exp = sig(content)
